@@ -1,4 +1,4 @@
-(* C19: sequences and columns: padding (fill/pack), column selection (export), self-extension *)
+(* C19: sequences and columns: padding (fill/pack), column selection (export) *)
 From Coq Require Import ZArith List Bool Lia.
 From DV Require Import Model.PyPrims Model.C19Model Proofs.C19Alist Proofs.C19Rows.
 Import ListNotations.
@@ -151,25 +151,3 @@ Qed.
 Lemma export_rows_keys T idx rs : keys (export_rows T idx rs) = keys rs.
 Proof. unfold export_rows, keys. rewrite map_map. reflexivity. Qed.
 
-(* ---- a sequence extended by a generator over itself never finishes ---- *)
-Lemma extend_live_diverges : forall fuel l i, (i < length l)%nat -> extend_live fuel l i = OutOfFuel.
-Proof.
-  induction fuel as [|f IH]; intros l i H; simpl; [reflexivity|].
-  destruct (nth_error l i) as [x|] eqn:E.
-  - apply IH. rewrite app_length. simpl. lia.
-  - apply nth_error_None in E. lia.
-Qed.
-
-Lemma extend_live_empty fuel : extend_live (S fuel) [] 0 = Ok [].
-Proof. reflexivity. Qed.
-
-Lemma extend_self_rows_spec : forall rs,
-  (forallb (fun p => match snd p with [] => true | _ => false end) rs = true -> extend_self_rows rs = Ok rs) /\
-  (forallb (fun p => match snd p with [] => true | _ => false end) rs = false -> extend_self_rows rs = OutOfFuel).
-Proof.
-  induction rs as [|[t r] rs [IH1 IH2]]; [split; [reflexivity | discriminate]|].
-  cbn [extend_self_rows forallb snd].
-  destruct r as [|c r].
-  - rewrite extend_live_empty. cbn [andb]. split; intros H; [rewrite IH1 by exact H | rewrite IH2 by exact H]; reflexivity.
-  - rewrite extend_live_diverges by (simpl; lia). split; [discriminate | reflexivity].
-Qed.
